@@ -1,4 +1,5 @@
 pub mod ast;
 pub mod lex;
 pub mod parse;
+pub mod resolve;
 pub mod shape;
